@@ -443,6 +443,79 @@ func (it *Interp) polySign(p poly) int {
 	if len(p) == 0 {
 		return 0
 	}
+	if len(it.Infinitesimal) > 0 {
+		return it.polySignEps(p)
+	}
+	return it.polySignFlat(p)
+}
+
+// polySignEps: with infinitesimal atoms the monomials are grouped by their total degree in those atoms; the
+// group of lowest degree decides when its sign is strict, a weak sign (>= 0, may vanish) needs the following
+// groups to point the same way.
+func (it *Interp) polySignEps(p poly) int {
+	groups := map[int]poly{}
+	maxDeg := 0
+	for k, c := range p {
+		d := 0
+		for id, e := range parseMono(k) {
+			if it.Infinitesimal[id] {
+				d += e
+			}
+		}
+		if groups[d] == nil {
+			groups[d] = poly{}
+		}
+		groups[d][k] = c
+		if d > maxDeg {
+			maxDeg = d
+		}
+	}
+	acc := 0
+	seen := false
+	for d := 0; d <= maxDeg; d++ {
+		g, ok := groups[d]
+		if !ok {
+			continue
+		}
+		sg := it.polySignFlat(g)
+		if sg == 9 {
+			return 9
+		}
+		if !seen {
+			seen = true
+			if sg == 2 || sg == -2 {
+				return sg
+			}
+			acc = sg
+			continue
+		}
+		// acc is weak (1 / -1 / 0)
+		switch {
+		case acc == 0:
+			if sg == 2 || sg == -2 {
+				return sg
+			}
+			acc = sg
+		case acc > 0 && sg > 0:
+			if sg == 2 {
+				return 2
+			}
+		case acc < 0 && sg < 0:
+			if sg == -2 {
+				return -2
+			}
+		case sg == 0:
+		default:
+			return 9
+		}
+	}
+	return acc
+}
+
+func (it *Interp) polySignFlat(p poly) int {
+	if len(p) == 0 {
+		return 0
+	}
 	pos, neg, strict := true, true, false
 	for k, c := range p {
 		allPos := true
